@@ -23,8 +23,11 @@ def sh(cmd, env=None, cwd=None, timeout=3600):
 
 def baseline(tree):
     out = tempfile.mktemp(prefix='rp_mut_', suffix='.xml')
+    # radical.pilot is an editable install of /repo: without this the tests in the scratch tree
+    # would import the code of /repo/src, not the changed code
     sh('/venv/bin/python -m pytest -q -p no:cacheprovider --timeout=900 '
-       '--continue-on-collection-errors --junitxml=%s' % out, cwd=tree)
+       '--continue-on-collection-errors --junitxml=%s' % out, cwd=tree,
+       env=dict(os.environ, PYTHONPATH=os.path.join(tree, 'src')))
     import xml.etree.ElementTree as ET
     base = set(json.load(open('/root/.vp/BASELINE.json'))['stable_pass'])
     passed = set()
